@@ -304,12 +304,59 @@ theorem aliases_wf (pnum cnum : Bytes → Nat) (A : List (Bytes × Int)) : ∀ s
   obtain ⟨_, _, rfl⟩ := hs
   rfl
 
-/-- every `.global x` stands below a label or `.const` of its own file that defines `x` -/
-def declOk : List Bytes → List Element → Bool
+/-- the names an `.include` statement brings into the includer's table: the operands of the `.global` statements of the
+included file -/
+def incNames (fs : Bytes → Option Bytes) (path : Bytes) (el : Element) : List Bytes :=
+  match incTarget fs path el with
+  | some (_, d') =>
+    match parseFile d' with
+    | .ok (els', _) => els'.filterMap globalName
+    | .stop _ => []
+  | none => []
+
+/-- the names a statement adds (valued) to its file's table -/
+def newNames (fs : Bytes → Option Bytes) (path : Bytes) (el : Element) : List Bytes :=
+  (match definedName el with | some x => [x] | none => []) ++ incNames fs path el
+
+/-- every `.global x` stands below a label or `.const` of its own file that defines `x`, or below an `.include` of a file
+that declares `x` global -/
+def declOk (fs : Bytes → Option Bytes) (path : Bytes) : List Bytes → List Element → Bool
   | _, [] => true
   | seen, el :: els =>
     (if isGlobal el then (match globalName el with | some x => seen.contains x | none => false) else true) &&
-    declOk (match definedName el with | some x => x :: seen | none => seen) els
+    declOk fs path (newNames fs path el ++ seen) els
+
+theorem incTarget_none {fs : Bytes → Option Bytes} {path : Bytes} {el : Element} (h : isInclude el = false) :
+    incTarget fs path el = none := by
+  unfold incTarget
+  unfold isInclude at h
+  split
+  · rename_i name args hv
+    rw [hv] at h
+    simp only [decide_eq_false_iff_not] at h
+    rw [if_neg h]
+  · rfl
+
+theorem pub_valued : ∀ (A : List (Bytes × Int)) (g : Table) (x : Bytes),
+    (x ∈ A.map Prod.fst ∨ ∃ v, g.find x = some (some v)) → ∃ v, (pub g A).find x = some (some v) := by
+  intro A
+  induction A with
+  | nil =>
+    intro g x h
+    rcases h with h | h
+    · cases h
+    · exact h
+  | cons xv A ih =>
+    intro g x h
+    refine ih (pub1 g xv.1 xv.2) x ?_
+    by_cases hx : xv.1 = x
+    · exact .inr ⟨xv.2, by rw [find_pub1, if_pos hx]⟩
+    · rcases h with h | ⟨v, hv⟩
+      · simp only [List.map_cons, List.mem_cons] at h
+        rcases h with h | h
+        · exact absurd h.symm hx
+        · exact .inl h
+      · exact .inr ⟨v, by rw [find_pub1, if_neg hx]; exact hv⟩
 
 /-! ## the flattened program -/
 
@@ -364,7 +411,7 @@ theorem doAssemble_sim (hinj : NumInj num) (henc : EncLen enc) (fs : Bytes → O
     (perr : Option ParseErr) (id : Nat) (Gt₀ : Table) :
     ∀ (els : List Element) (st stf : St) (l : Layout.State) (nxt : Nat) (seen : List Bytes) (A : List (Bytes × Int)),
       (∀ el ∈ els, okGlob el = true ∧ plainEl el = true ∧ ∀ p' d', incTarget fs path el = some (p', d') → proj p' d') →
-      declOk seen els = true →
+      declOk fs path seen els = true →
       Multi.Sim (num id) enc t₂ G (pub Gt₀ A) st l → PubOk Gt₀ A →
       (∀ x ∈ seen, ∀ t, st.locals = some t → ∃ v, t.find x = some (some v)) →
       id < nxt → (∀ j n, nxt ≤ j → l.env.get (num j n) = none) →
@@ -408,22 +455,30 @@ theorem doAssemble_sim (hinj : NumInj num) (henc : EncLen enc) (fs : Bytes → O
       rw [hl] at hC0; cases hC0
       simp only [declOk, Bool.and_eq_true] at hdecl
       obtain ⟨hdg, hdecl'⟩ := hdecl
-      have hseen1 : ∀ x ∈ (match definedName el with | some x => x :: seen | none => seen), ∀ t', st1.locals = some t' →
-          ∃ v, t'.find x = some (some v) := by
-        intro x hx t' ht'
+      have hseen1 : (∀ x ∈ incNames fs path el, ∃ v, C1.find x = some (some v)) →
+          ∀ x ∈ newNames fs path el ++ seen, ∀ t', st1.locals = some t' → ∃ v, t'.find x = some (some v) := by
+        intro hincn x hx t' ht'
         rw [hC1] at ht'; cases ht'
         have hold : x ∈ seen → ∃ v, C1.find x = some (some v) := fun hxs => by
           obtain ⟨v, hv⟩ := hseen x hxs t hl
           exact ⟨v, hle01 x v hv⟩
-        cases hdn : definedName el with
-        | none => rw [hdn] at hx; exact hold hx
-        | some y =>
-          rw [hdn] at hx
-          rcases List.mem_cons.mp hx with rfl | hx
-          · obtain ⟨l', v, e1, e2⟩ := defined_valued hdn hs
+        simp only [newNames, List.mem_append] at hx
+        rcases hx with (hx | hx) | hx
+        · cases hdn : definedName el with
+          | none => rw [hdn] at hx; cases hx
+          | some y =>
+            rw [hdn] at hx
+            simp only [List.mem_singleton] at hx
+            subst hx
+            obtain ⟨l', v, e1, e2⟩ := defined_valued hdn hs
             rw [hC1] at e1; cases e1
             exact ⟨v, e2⟩
-          · exact hold hx
+        · exact hincn x hx
+        · exact hold hx
+      have hnoinc : isInclude el = false → ∀ x ∈ incNames fs path el, ∃ v, C1.find x = some (some v) := by
+        intro hi' x hx
+        simp only [incNames, incTarget_none hi'] at hx
+        cases hx
       by_cases hi : isInclude el = true
       · -- a complete included file
         obtain ⟨p', d', htgt, hcall⟩ := include_inv henv hi hs
@@ -445,7 +500,10 @@ theorem doAssemble_sim (hinj : NumInj num) (henc : EncLen enc) (fs : Bytes → O
         have hfresh1 : ∀ j n, id' ≤ j → la.env.get (num j n) = none := fun j n hj => by
           rw [hframe j n (by omega) (.inr hj)]; exact hfresh j n (by omega)
         obtain ⟨p, lf, nxt', A', hle, hm2, simf, hpo', hAv', hAn', hcurf, hwf2, hframe2, hflat2⟩ :=
-          ih st1 stf la id' _ A hok' hdecl' sim1 hpo hseen1 (by omega) hfresh1 h herr hfin
+          ih st1 stf la id' _ A hok' hdecl' sim1 hpo (hseen1 (fun x hx => by
+              simp only [incNames, htgt, hparse] at hx
+              rw [e1] at hC1; cases hC1
+              exact pub_valued Ac t x (.inl (by rw [hAn]; exact hx)))) (by omega) hfresh1 h herr hfin
         refine ⟨pc ++ (aliases (num id) (num nxt) Ac ++ p), lf, nxt', A', by omega, .file hm hrt (MRun.append hal hm2), simf,
           hpo', hAv', ?_, ?_, ?_, ?_, ?_⟩
         · simp only [List.filterMap_cons, globalName_none hig]; exact hAn'
@@ -485,7 +543,7 @@ theorem doAssemble_sim (hinj : NumInj num) (henc : EncLen enc) (fs : Bytes → O
               by rw [hst1]; exact sim.tasks, ⟨by rw [hst1]; exact sim.gl.1, hgl⟩⟩
           have hcur1 : cursor st1 = cursor st := by rw [hst1]; rfl
           obtain ⟨p, lf, nxt', A', hle, hm2, simf, hpo', hAv', hAn', hcurf, hwf2, hframe2, hflat2⟩ :=
-            ih st1 stf l nxt _ (A ++ [(x, v)]) hok' hdecl' sim1 hpo1 hseen1 hid hfresh h herr hfin
+            ih st1 stf l nxt _ (A ++ [(x, v)]) hok' hdecl' sim1 hpo1 (hseen1 (hnoinc hi')) hid hfresh h herr hfin
           refine ⟨p, lf, nxt', (x, v) :: A', hle, hm2, ?_, ?_, ?_, ?_, by rw [← hcur1]; exact hcurf, hwf2, hframe2, ?_⟩
           · rw [show A ++ (x, v) :: A' = (A ++ [(x, v)]) ++ A' by simp]; exact simf
           · rw [show A ++ (x, v) :: A' = (A ++ [(x, v)]) ++ A' by simp]; exact hpo'
@@ -508,7 +566,7 @@ theorem doAssemble_sim (hinj : NumInj num) (henc : EncLen enc) (fs : Bytes → O
               obtain ⟨m, hm⟩ := defines_absStmt (num id) fs path t₂ (cursor st) el _ hd
               exact hj (hinj _ _ _ _ hm).1)
           obtain ⟨p, lf, nxt', A', hle, hm2, simf, hpo', hAv', hAn', hcurf, hwf2, hframe2, hflat2⟩ :=
-            ih st1 stf l1 nxt _ A hok' hdecl' sim1 hpo hseen1 hid
+            ih st1 stf l1 nxt _ A hok' hdecl' sim1 hpo (hseen1 (hnoinc hi')) hid
               (fun j n hj => by rw [henv1 j n (by omega)]; exact hfresh j n hj) h herr hfin
           refine ⟨_ :: p, lf, nxt', A', hle, .step s1 hm2, simf, hpo', hAv', ?_, ?_, ?_, ?_, ?_⟩
           · simp only [List.filterMap_cons, globalName_none hg']; exact hAn'
@@ -532,7 +590,7 @@ theorem fileBody_sim (hinj : NumInj num) (henc : EncLen enc) (fs : Bytes → Opt
     (proj : Bytes → Bytes → Prop) (hincs : GIncSim num enc fs inc proj) (hinc : IncOk inc) (hincg : IncGrew inc)
     (hincr : IncRel inc) (env1 : Env) (path : Bytes) (rest : List Bytes) (henv : env1.paths = path :: rest)
     (data : Bytes) (pid id : Nat) (hpid : pid < id) (st2 st4 : St) (res : Res) (l2 : Layout.State)
-    (hproj : ∀ els perr, parseFile data = .ok (els, perr) → declOk [] els = true ∧ ∀ el ∈ els, okGlob el = true ∧
+    (hproj : ∀ els perr, parseFile data = .ok (els, perr) → declOk fs path [] els = true ∧ ∀ el ∈ els, okGlob el = true ∧
       plainEl el = true ∧ ∀ p' d', incTarget fs path el = some (p', d') → proj p' d')
     (good : Good true st2) (r : R st2.seg l2) (hloc : st2.locals = some []) (hlt : st2.localTasks = some [])
     (hlk : l2.tasks = []) (hfresh : ∀ j n, id ≤ j → l2.env.get (num j n) = none)
@@ -647,10 +705,10 @@ theorem fileBody_sim (hinj : NumInj num) (henc : EncLen enc) (fs : Bytes → Opt
           exact g2.env n
 
 /-- every file of the include tree below (`path`, `data`), to depth `fuel`: no `.import / .export`, operand trees `plain`,
-every `.global x` below a definition of `x` in the same file -/
+every `.global x` below a definition of `x` in the same file or an `.include` of a file declaring `x` global -/
 def GlobalProject (fs : Bytes → Option Bytes) : Nat → Bytes → Bytes → Prop
   | 0, _, _ => True
-  | fuel + 1, path, data => ∀ els perr, parseFile data = .ok (els, perr) → declOk [] els = true ∧ ∀ el ∈ els,
+  | fuel + 1, path, data => ∀ els perr, parseFile data = .ok (els, perr) → declOk fs path [] els = true ∧ ∀ el ∈ els,
       okGlob el = true ∧ plainEl el = true ∧ ∀ p' d', incTarget fs path el = some (p', d') → GlobalProject fs fuel p' d'
 
 theorem assembleFile_sim (hinj : NumInj num) (henc : EncLen enc) (fs : Bytes → Option Bytes) :
